@@ -214,6 +214,11 @@ def gen_cases(tier, seed):
         for procs in ([2, 4] if q else [2, 4, 8]):
             for kind in ('surface', 'volume', 'boxvol'):
                 cases.append(dict(mode='sched_voxelize', grid=grid, procs=procs, kind=kind))
+    # more than 64 / 256 voxels (grids beyond 4 per axis)
+    for grid in ([[2, 3, 11], [5, 4, 4]] if q else [[2, 3, 11], [5, 4, 4], [5, 5, 5], [8, 8, 8], [7, 6, 7]]):
+        for procs in ([2, 4] if q else [2, 4, 8]):
+            for kind in ('surface', 'boxvol'):
+                cases.append(dict(mode='sched_voxelize', grid=grid, procs=procs, kind=kind))
     return cases
 
 
